@@ -30,10 +30,13 @@ Meta == Tab.meta
 RegNames == DOMAIN Reg
 
 Configs == {"none", "cache", "neg", "negcache", "part"}
-UsesAtoms(cfg) == cfg \in {"neg", "negcache"}
-UsesErrs(cfg) == cfg \in {"neg", "negcache"}
-RegCached(cfg, name) == cfg \in {"neg", "negcache"} \/ (cfg = "part" /\ Reg[name].part)
-DecHasCaches(cfg) == cfg \in {"neg", "negcache", "part"}
+\* ("wire", "wiretop": the value travelled between two real nodes, in an envelope or as the message itself; the caches are the
+\* ones the real handshake negotiated)
+Negotiated == {"neg", "negcache", "wire", "wiretop"}
+UsesAtoms(cfg) == cfg \in Negotiated
+UsesErrs(cfg) == cfg \in Negotiated
+RegCached(cfg, name) == cfg \in Negotiated \/ (cfg = "part" /\ Reg[name].part)
+DecHasCaches(cfg) == cfg \in Negotiated \cup {"part"}
 
 LeafTag == [bool |-> 145, i8 |-> 146, i16 |-> 147, i32 |-> 148, i64 |-> 149, int |-> 150, u8 |-> 151, u16 |-> 152, u32 |-> 153, u64 |-> 154,
             uint |-> 155, f32 |-> 143, f64 |-> 144, str |-> 141, bin |-> 142, atom |-> 140, pid |-> 170, procid |-> 171, alias |-> 172,
